@@ -1,7 +1,32 @@
 //! further operations (evaluator, iterator, ranges, scopes) -- grown property by property
+use crate::util::*;
+use espada::card::Card;
+use espada::evaluator::MadeHand;
 
-pub fn run_op2(op: &str, _a: &[&str]) -> String {
-    format!("bad-op {}", op)
+pub fn run_op2(op: &str, a: &[&str]) -> String {
+    let n = |i: usize| -> usize { a[i].parse::<usize>().unwrap() };
+    match op {
+        // eval7 c1 .. c7 -> ok <power index> <category Debug name>
+        "eval7" => {
+            let cards: [Card; 7] = [
+                card_of(n(0)),
+                card_of(n(1)),
+                card_of(n(2)),
+                card_of(n(3)),
+                card_of(n(4)),
+                card_of(n(5)),
+                card_of(n(6)),
+            ];
+            match guarded(|| {
+                let h: MadeHand = cards.into();
+                (h.power_index(), format!("{:?}", h.hand_type()))
+            }) {
+                Some((i, c)) => format!("ok {} {}", i, c),
+                None => "panic".to_string(),
+            }
+        }
+        _ => format!("bad-op {}", op),
+    }
 }
 
 pub fn special(_cmd: &str, _args: &[String]) -> bool {
